@@ -220,7 +220,7 @@ class FilterSummary:
                 src, call = u
                 srcd = self._single_def(src, s) if isinstance(src, ast.Name) else src
                 if isinstance(srcd, ast.Call) and call_name(srcd) in ("np.vstack", "np.concatenate", "np.append"):
-                    return self._classify_removal(srcd, sub, s)
+                    return self._classify_removal(srcd, sub, s, base)
         if isinstance(name, ast.Name):
             u = self._unique_source(name, s)
             if u is None:
@@ -241,7 +241,7 @@ class FilterSummary:
                     return Stage("dedupe", s, {"order_restored": sorted_}, axis0, "" if axis0 else "np.unique without axis=0 flattens the rows")
                 # (c) removal of evaluated rows through unique of a stack
                 if isinstance(srcd, ast.Call) and call_name(srcd) in ("np.vstack", "np.concatenate", "np.append"):
-                    return self._classify_removal(srcd, sub if sub is not None else name, s)
+                    return self._classify_removal(srcd, sub if sub is not None else name, s, base)
         # (d) constraint selection: idx = C <= 0 ; C = cons(X) ; X = inverse(res)
         cs = self._constraint_mask(ast.UnaryOp(op=ast.Invert(), operand=d) if neg else d, s)
         if cs is not None:
@@ -399,7 +399,7 @@ class FilterSummary:
                     return o
         return "?"
 
-    def _classify_removal(self, stack_call, sel_expr, s) -> Stage:
+    def _classify_removal(self, stack_call, sel_expr, s, base=None) -> Stage:
         args = stack_call.args[0].elts if stack_call.args and isinstance(stack_call.args[0], (ast.Tuple, ast.List)) else stack_call.args[:2]
         if len(args) != 2:
             return Stage("removal", s, {}, None, "stack of other than two blocks")
@@ -429,7 +429,13 @@ class FilterSummary:
             if is_first:
                 # either way the kept indices are first occurrences of distinct (rounded) rows inside the candidate block:
                 # the pass de-duplicates the candidates as well (rows that are equal are equal after rounding)
-                detail["dedupes"] = True
+                # ... provided the indices are applied to the very array whose (rounded) rows form the candidate block
+                cand_blk = first if o1 == "cand" else second
+                cb = self._single_def(cand_blk, s) if isinstance(cand_blk, ast.Name) else cand_blk
+                imgs = {n.id for n in ast.walk(cb) if isinstance(n, ast.Name)} if cb is not None else set()
+                detail["dedupes"] = base is not None and base in imgs
+                if base is not None and base not in imgs and (imgs & self.chain):
+                    return Stage("removal", s, detail, False, f"the index vector is computed from the rows of {sorted(imgs & self.chain)} but applied to '{base}': the indices address other rows (rows dropped or de-duplicated in between shift them)")
                 if o1 == "cand" and o2 == "log" and op in (ast.Lt,):
                     return Stage("removal", s, detail, False,
                                  "np.unique(vstack((candidates, log)), return_index=True) reports the *first* occurrence of a row; a candidate that equals a logged row occurs first in the candidate block, "
